@@ -111,20 +111,25 @@ def Sess.fresh : Sess := ⟨none, stAttached, false, 0, [], []⟩
 /-- `(UploadBytes, DownloadBytes)` of one user's metric group -/
 abbrev Pair := Counter × Counter
 
+/-- the registry: `user - <name>` → its two counters, `none` = group not registered. (A structure
+    around the lookup function: every update below returns DATA, so the compiled driver evaluates it
+    once, when the operation happens.) -/
+structure Reg where
+  get : String → Option Pair
+
 structure World where
   sess : List Sess
-  /-- the registry: `user - <name>` → its two counters, `none` = group not registered -/
-  metrics : String → Option Pair
+  metrics : Reg
   policies : String → Option Policy
 
-def World.empty (policies : String → Option Policy) : World := ⟨[], fun _ => none, policies⟩
+def World.empty (policies : String → Option Policy) : World := ⟨[], ⟨fun _ => none⟩, policies⟩
 
 /-- what `checkQuota` sees -/
 def World.server (w : World) : Server :=
-  { policies := w.policies, metrics := fun u => (w.metrics u).map fun p => ⟨p.1.hist, p.2.hist⟩ }
+  { policies := w.policies, metrics := fun u => (w.metrics.get u).map fun p => ⟨p.1.hist, p.2.hist⟩ }
 
-def setMetrics (m : String → Option Pair) (u : String) (p : Pair) : String → Option Pair :=
-  fun x => if x = u then some p else m x
+def setMetrics (m : Reg) (u : String) (p : Pair) : Reg :=
+  ⟨fun x => if x = u then some p else m.get x⟩
 
 def setSess (l : List Sess) (i : Nat) (s : Sess) : List Sess := l.set i s
 
@@ -163,18 +168,18 @@ def writeN (len okChunks : Nat) : Nat :=
   if (len + maxPDU - 1) / maxPDU ≤ okChunks then len else okChunks * maxPDU
 
 /-- registration in `input`: `RegisterMetric` twice (existing counters are returned as they are) -/
-def register (m : String → Option Pair) (u : String) : String → Option Pair :=
-  match m u with
+def register (m : Reg) (u : String) : Reg :=
+  match m.get u with
   | some _ => m
   | none => setMetrics m u (Counter.new true, Counter.new true)
 
-def addUp (m : String → Option Pair) (u : String) (n : Nat) (now : Int) : String → Option Pair :=
-  match m u with
+def addUp (m : Reg) (u : String) (n : Nat) (now : Int) : Reg :=
+  match m.get u with
   | some p => setMetrics m u (Counter.add p.1 n now, p.2)
   | none => m
 
-def addDown (m : String → Option Pair) (u : String) (n : Nat) (now : Int) : String → Option Pair :=
-  match m u with
+def addDown (m : Reg) (u : String) (n : Nat) (now : Int) : Reg :=
+  match m.get u with
   | some p => setMetrics m u (p.1, Counter.add p.2 n now)
   | none => m
 
